@@ -11,6 +11,14 @@ def hook_commits():
         return []
 
 CHECKS = {
+ "C15": dict(cat="exploration",
+   text="A parent / invoked child / sibling topology exercises every target form (literal and computed) with every payload shape; each uniquely named event must be received exactly once in the addressed session and queue kind (IRECV vs XRECV at the tracer) with sendid, origin, origintype, invokeid and data as sent, and a reply addressed to _event.origin / origintype must reach the original sender; concurrent creation (16 threads on a barrier, each session invoking four children) checks uniqueness of session ids and generated send / invoke ids.",
+   note="Trusted: rec.rs tracer attribution by thread, the expectation table in c15.rs. Topologies are fixed templates (2 data models), not generated.",
+   tech="offline checker over recorded receptions (exactly-once, addressed queue) + id-uniqueness monitor under concurrent creation", ref="DESIGN.md §5 C15"),
+ "C16": dict(cat="exploration",
+   text="Generated scenarios of delayed sends and cancels with every send / cancel bracketed by time-stamped marks on one monotonic clock; an interval oracle judges only what the measured intervals decide (not-early, exactly-once, due order, cancel before earliest due time, delivery when never cancelled, termination discard), absence is closed by a later sentinel; undecided pairs are counted, not judged.",
+   note="Trusted: Instant timestamps taken in the mark action, 1 ms timer granularity allowance. No wall-clock deadline is used as a verdict except the 'never delivered' window, which is closed by a processed sentinel.",
+   tech="offline checker over time-stamped event log with interval arithmetic", ref="DESIGN.md §5 C16"),
  "C09": dict(cat="exploration",
    text="Four probe families on real sessions: an In() probe in every body and guard of generated documents whose action compares every reported boolean with the live configuration at the call; an _event probe fed with host, raised, sent (internal / self / cross-session), platform and done events with all fields; write attempts of every kind against every system variable and _event field (error.execution expected, values re-read in the same microstep); nested state-local data under early and late binding with assignments and re-entry.",
    note="Trusted: the probe action (receives &GlobalData = the live configuration), the expected field values in c09.rs. Root-level <data> under late binding and the type of done.state events are not judged (not fixed by the statement). ecmascript runs in strict mode.",
